@@ -83,9 +83,11 @@ func (p *pendingRequests) loadAndDelete(stream int16) Request {
 }
 
 func (p *pendingRequests) closing(err error) {
-	p.pending.Range(func(key, value interface{}) bool {
-		request := value.(Request)
-		request.OnClose(err)
+	p.pending.Range(func(key, _ interface{}) bool {
+		// Claim the entry before notifying: a sender whose write failed may be taking its request back concurrently
+		if request := p.loadAndDelete(key.(int16)); request != nil {
+			request.OnClose(err)
+		}
 		return true
 	})
 }
